@@ -12,9 +12,9 @@ open Duck.Spec Duck.Generated
 def ElifsSim (is : List Instruction) (fuel : Nat) : Prop :=
   ∀ (es : Elifs) (kwElse : Option Str) (elseBody : Block) (kwEnd : Str) (lo pos stop : Nat)
     (elses : List Nat) (j : Nat) (own : IfCall) (K : List IfCall) (s : Sdk) (t t' : TState),
-    es.wf = true → es.simple = true →
+    es.wf = true → es.simple2 = true →
     (match kwElse with | some k => isElseKw k && elseBody.wf | none => true) = true →
-    elseBody.simple = true → isEndIfKw kwEnd = true →
+    elseBody.simple2 = true → isEndIfKw kwEnd = true →
     At is pos (tailFlat es kwElse elseBody kwEnd) →
     stop = pos + es.flatten.length + (elseFlat kwElse elseBody).length →
     lo < pos →
@@ -24,6 +24,7 @@ def ElifsSim (is : List Instruction) (fuel : Nat) : Prop :=
     own.elses = elses → own.stop = stop → own.ctx = s.lineCtx →
     s.endTable.get (lineKey s stop) = some fullNameEndIf →
     CacheOK is s → Rel s t → ForOK pos (stop + 1) s.forStack →
+    safeElifs is fuel es kwElse elseBody t = true →
     execElifs is fuel es kwElse elseBody t = .normal t' →
     ∃ s', Steps is pos t.vars s (stop + 1) t'.vars s' ∧
       SimCore is pos (stop + 1) (fun x => Elifs.assigns x es || Block.assigns x elseBody) s t t' s' ∧
@@ -36,7 +37,7 @@ def ElifsSim (is : List Instruction) (fuel : Nat) : Prop :=
 theorem branch_done (is : List Instruction) (es : Elifs) (kwElse : Option Str) (elseBody : Block)
     (kwEnd : Str) (lo pos stop : Nat) (v : Vars) (s2 : Sdk) (G : List IfCall) (own : IfCall)
     (K : List IfCall)
-    (hwf : es.wf = true) (hs : es.simple = true)
+    (hwf : es.wf = true) (hs : es.simple2 = true)
     (hke : (match kwElse with | some k => isElseKw k && elseBody.wf | none => true) = true)
     (hkend : isEndIfKw kwEnd = true)
     (hat : At is pos (tailFlat es kwElse elseBody kwEnd))
@@ -72,10 +73,10 @@ theorem branch_done (is : List Instruction) (es : Elifs) (kwElse : Option Str) (
       exact ⟨_, this, rfl, Garb.refl _ _ _ _, rfl, rfl⟩
   | cons kw cond b rest =>
     rw [tailFlat_cons] at hat
-    simp only [Elifs.wf, Elifs.simple, Bool.and_eq_true] at hwf hs
+    simp only [Elifs.wf, Elifs.simple2, Bool.and_eq_true] at hwf hs
     have hc := hcur (by simp [go_cons])
-    have := step_elif_passed is pos v s2 _ kw cond G own K (At.head hat) hwf.1.1 hs.1.1 hst hc hctx
-      hGne hp
+    have := step_elif_passed is pos v s2 _ kw cond G own K (At.head hat) hwf.1.1
+      (condSimple2_bind_ne v hs.1.1) hst hc hctx hGne hp
     rw [hos] at this
     exact ⟨_, this, rfl, Garb.refl _ _ _ _, rfl, rfl⟩
 
@@ -85,10 +86,15 @@ theorem execElifs_nil_none (is : List Instruction) (fuel : Nat) (elseBody : Bloc
   | zero => simp [execElifs] at h
   | succ f => simp [execElifs] at h; exact h.symm
 
+theorem Rel.withEm {s s' : Sdk} {t : TState} (em : List (List Str)) (h : Rel s t)
+    (h1 : s'.handles = s.handles) (h2 : s'.nextHandle = s.nextHandle) (h3 : s'.emitted = em)
+    (h4 : s'.fns = s.fns) : Rel s' (withEm t em) :=
+  ⟨h1.trans h.handles, h2.trans h.next, h3, h4.trans h.sfns, h.tsfns, h.tfns, h.hok⟩
+
 theorem elifs_step (is : List Instruction) (fuel : Nat) (hB : BlockSim is fuel) (hE : ElifsSim is fuel) :
     ElifsSim is (fuel + 1) := by
   intro es kwElse elseBody kwEnd lo pos stop elses j own K s t t' hwf hs hke hes hkend hat hstop hlo
-    hdrop hne hrng hst hcur hp hidx hels hos hctx hend hc hrel hfor hex
+    hdrop hne hrng hst hcur hp hidx hels hos hctx hend hc hrel hfor hsafe hex
   cases es with
   | nil =>
     cases kwElse with
@@ -97,6 +103,7 @@ theorem elifs_step (is : List Instruction) (fuel : Nat) (hB : BlockSim is fuel) 
       rw [tailFlat_nil_some] at hat
       simp only [Bool.and_eq_true] at hke
       simp only [execElifs, Option.isSome_some, if_true] at hex
+      simp only [safeElifs, Option.isSome_some, if_true] at hsafe
       have hstopEq : pos + 1 + elseBody.flatten.length = stop := by
         simp [hstop, elseFlat, Elifs.flatten]; omega
       have hstep := step_else_run is pos t.vars s _ k [] own K (At.head hat) hke.1
@@ -105,7 +112,7 @@ theorem elifs_step (is : List Instruction) (fuel : Nat) (hB : BlockSim is fuel) 
       obtain ⟨s2, hst2, hcore2, hif2, hwh2, hfor2⟩ :=
         hB elseBody (pos + 1) { s with ifStack := K } t t' hke.2 hes hat'.left
           (hc.of_eq rfl rfl rfl rfl) (hrel.of_eq rfl rfl rfl rfl)
-          (hfor.mono (by omega) (by omega)) hex
+          (hfor.mono (by omega) (by omega)) hsafe hex
       rw [hstopEq] at hst2 hcore2 hif2 hwh2
       have hend2 : s2.endTable.get (lineKey s2 stop) = some fullNameEndIf := by
         rw [lineKey_congr hcore2.frame.ctx, hcore2.frame.endT stop (.inr (by omega))]
@@ -122,7 +129,7 @@ theorem elifs_step (is : List Instruction) (fuel : Nat) (hB : BlockSim is fuel) 
       · exact hwh2.mono (by omega) (by omega)
   | cons kw cond b rest =>
     rw [tailFlat_cons] at hat
-    simp only [Elifs.wf, Elifs.simple, Bool.and_eq_true] at hwf hs
+    simp only [Elifs.wf, Elifs.simple2, Bool.and_eq_true] at hwf hs
     rw [go_cons] at hdrop
     obtain ⟨hjlt, hj, hdrop'⟩ := drop_cons_facts elses j pos _ hdrop
     have hstopEq : stop = pos + 1 + b.flatten.length + rest.flatten.length +
@@ -133,16 +140,22 @@ theorem elifs_step (is : List Instruction) (fuel : Nat) (hB : BlockSim is fuel) 
     cases fuel with
     | zero => simp [execElifs, evalCond] at hex
     | succ f =>
-      simp only [execElifs, evalCond_simple is f cond t hs.1.1 hrel.tfns hrel.tsfns] at hex
-      cases hv : condVal (bind t.vars (some cond)) with
-      | error e => rw [hv] at hex; simp at hex
-      | ok bv =>
-        rw [hv] at hex
+      simp only [execElifs] at hex
+      simp only [safeElifs, Bool.and_eq_true] at hsafe
+      obtain ⟨hcsafe, hsafe'⟩ := hsafe
+      cases hec : evalCond is (f + 1) cond t with
+      | none => rw [hec] at hex; simp at hex
+      | some pr =>
+        obtain ⟨bv, t1⟩ := pr
+        rw [hec] at hex hsafe'
+        obtain ⟨em, rfl, hbne, hev⟩ := cond_sim is f cond t t1 bv hs.1.1 hcsafe hrel.tfns hrel.tsfns hec
+        have hv : CondSays is (bind t.vars (some cond)) t.vars s.emitted bv em :=
+          ⟨hbne, fun f' hf' s' h1 h2 => hev f' hf' is s' h1 (h2.trans hrel.emitted)⟩
         cases bv with
         | true =>
-          simp only at hex
+          simp only at hex hsafe'
           -- the branch is taken
-          have hstep := step_elif_true is pos t.vars s _ kw cond [] own K hi hwf.1.1 hs.1.1 hrel.sfns
+          have hstep := step_elif_true is pos t.vars s _ kw cond [] own K em hi hwf.1.1 hrel.sfns
             (by simpa using hst) hcur hctx (by simp) hp hv
           have hnext : lo ≤ elifNext own ∧ elifNext own < stop + 1 := by
             unfold elifNext
@@ -160,12 +173,19 @@ theorem elifs_step (is : List Instruction) (fuel : Nat) (hB : BlockSim is fuel) 
               have := hrng _ (List.getElem_mem h0)
               simp only [Option.getD_some]
               omega
+          have hcore1 : SimCore is pos (stop + 1)
+              (fun x => Elifs.assigns x (.cons kw cond b rest) || Block.assigns x elseBody) s t
+              (withEm t em)
+              { s with emitted := em,
+                       ifStack := { own with current := elifNext own, passed := true,
+                                             ctx := s.lineCtx } :: K } :=
+            SimCore.condStep (hc.of_eq rfl rfl rfl rfl) hrel rfl rfl rfl rfl rfl (fun _ _ => rfl)
           obtain ⟨s2, hst2, hcore2, hif2, hwh2, hfor2⟩ :=
             hB b (pos + 1)
-              { s with ifStack := { own with current := elifNext own, passed := true,
-                                             ctx := s.lineCtx } :: K } t t' hwf.1.2 hs.1.2 hat'.left
-              (hc.of_eq rfl rfl rfl rfl) (hrel.of_eq rfl rfl rfl rfl)
-              (hfor.mono (by omega) (by omega)) hex
+              { s with emitted := em,
+                       ifStack := { own with current := elifNext own, passed := true,
+                                             ctx := s.lineCtx } :: K } (withEm t em) t' hwf.1.2 hs.1.2
+              hat'.left hcore1.cache hcore1.rel (hfor.mono (by omega) (by omega)) hsafe' hex
           obtain ⟨G, hG1, hG2⟩ := hif2
           have hend2 : s2.endTable.get (lineKey s2 stop) = some fullNameEndIf := by
             rw [lineKey_congr hcore2.frame.ctx, hcore2.frame.endT stop (.inr (by omega))]
@@ -197,14 +217,15 @@ theorem elifs_step (is : List Instruction) (fuel : Nat) (hB : BlockSim is fuel) 
                   rfl)
               (by simpa using hnext) hend2
           refine ⟨s3, (hstep.trans hst2).trans hst3, ?_, hif3, ?_, ?_⟩
-          · refine ((hcore2.mono' (lo' := pos) (hi' := stop + 1) (by omega) (by omega) ?_).core_right hcore3).core_left rfl
+          · refine hcore1.trans
+              ((hcore2.mono' (lo' := pos) (hi' := stop + 1) (by omega) (by omega) ?_).core_right hcore3)
             intro x hx
             simp only [Elifs.assigns, Bool.or_eq_false_iff] at hx
             exact hx.1.1
           · rw [hwh3]; exact hwh2.mono (by omega) (by omega)
           · rw [hfor3, hfor2]
         | false =>
-          simp only at hex
+          simp only at hex hsafe'
           cases hg : elseOffsets.go (pos + 1 + b.flatten.length) rest kwElse with
           | nil =>
             -- no further else-line: leave the chain
@@ -218,14 +239,15 @@ theorem elifs_step (is : List Instruction) (fuel : Nat) (hB : BlockSim is fuel) 
                 | some k => simp [go_nil_some] at hg
               | cons _ _ _ _ => simp [go_cons] at hg
             obtain ⟨rfl, rfl⟩ := hrk
-            have := execElifs_nil_none is (f + 1) elseBody t t' hex
+            have := execElifs_nil_none is (f + 1) elseBody _ t' hex
             subst this
-            have hstep := step_elif_false_last is pos t'.vars s _ kw cond [] own K hi hwf.1.1 hs.1.1
+            have hstep := step_elif_false_last is pos t.vars s _ kw cond [] own K em hi hwf.1.1
               hrel.sfns (by simpa using hst) hcur hctx (by simp) hp hv
               (by rw [hels, hidx]; exact hlast)
             rw [hos] at hstep
-            refine ⟨_, hstep, (SimCore.refl hc hrel).core_right rfl, Garb.refl _ _ _ _,
-              Garb.refl _ _ _ _, rfl⟩
+            exact ⟨_, hstep,
+              SimCore.condStep (hc.of_eq rfl rfl rfl rfl) hrel rfl rfl rfl rfl rfl (fun _ _ => rfl),
+              Garb.refl _ _ _ _, Garb.refl _ _ _ _, rfl⟩
           | cons a tl =>
             rw [hg] at hdrop'
             obtain ⟨h1, h2, _⟩ := drop_cons_facts elses (j + 1) a tl hdrop'
@@ -236,25 +258,33 @@ theorem elifs_step (is : List Instruction) (fuel : Nat) (hB : BlockSim is fuel) 
                 | none => simp [go_nil_none] at hg
                 | some k => simp [go_nil_some] at hg; exact hg.1.symm
               | cons _ _ _ _ => simp [go_cons] at hg; exact hg.1.symm
-            have hstep := step_elif_false_more is pos t.vars s _ kw cond [] own K hi hwf.1.1 hs.1.1
+            have hstep := step_elif_false_more is pos t.vars s _ kw cond [] own K em hi hwf.1.1
               hrel.sfns (by simpa using hst) hcur hctx (by simp) hp hv
               (by rw [hels, hidx]; exact h1)
             have hnx : own.elses[own.elseIdx + 1]?.getD 0 = pos + 1 + b.flatten.length := by
               rw [hels, hidx, h2, ha]; rfl
             rw [hnx] at hstep
+            have hcore1 : SimCore is pos (stop + 1)
+                (fun x => Elifs.assigns x (.cons kw cond b rest) || Block.assigns x elseBody) s t
+                (withEm t em)
+                { s with emitted := em,
+                         ifStack := { own with current := pos + 1 + b.flatten.length, passed := false,
+                                               elseIdx := own.elseIdx + 1, ctx := s.lineCtx } :: K } :=
+              SimCore.condStep (hc.of_eq rfl rfl rfl rfl) hrel rfl rfl rfl rfl rfl (fun _ _ => rfl)
             obtain ⟨s2, hst2, hcore2, hif2, hwh2, hfor2⟩ :=
               hE rest kwElse elseBody kwEnd lo (pos + 1 + b.flatten.length) stop elses (j + 1)
                 { own with current := pos + 1 + b.flatten.length, passed := false,
                            elseIdx := own.elseIdx + 1, ctx := s.lineCtx } K
-                { s with ifStack := { own with current := pos + 1 + b.flatten.length, passed := false,
+                { s with emitted := em,
+                         ifStack := { own with current := pos + 1 + b.flatten.length, passed := false,
                                                elseIdx := own.elseIdx + 1, ctx := s.lineCtx } :: K }
-                t t' hwf.2 hs.2 hke hes hkend hat'.right (by omega) (by omega)
+                (withEm t em) t' hwf.2 hs.2 hke hes hkend hat'.right (by omega) (by omega)
                 (by rw [hdrop', hg]) (by rw [hdrop']; simp) hrng rfl rfl rfl
                 (by simp only; rw [hidx]) hels hos rfl hend
-                (hc.of_eq rfl rfl rfl rfl) (hrel.of_eq rfl rfl rfl rfl)
-                (hfor.mono (by omega) (by omega)) hex
+                hcore1.cache hcore1.rel
+                (hfor.mono (by omega) (by omega)) hsafe' hex
             refine ⟨s2, hstep.trans hst2, ?_, hif2, ?_, hfor2⟩
-            · refine (hcore2.mono' (by omega) (by omega) ?_).core_left rfl
+            · refine hcore1.trans (hcore2.mono' (by omega) (by omega) ?_)
               intro x hx
               simp only [Elifs.assigns, Bool.or_eq_false_iff] at hx
               simp only [Bool.or_eq_false_iff]
@@ -288,8 +318,8 @@ theorem stmt_if (is : List Instruction) (fuel : Nat) (hB : BlockSim is fuel) (hE
     (kwIf : Str) (cond : List Str) (body : Block) (elifs : Elifs) (kwElse : Option Str)
     (elseBody : Block) (kwEnd : Str) :
     StmtSimFor is (fuel + 1) (.ifChain kwIf cond body elifs kwElse elseBody kwEnd) := by
-  intro lo s t t' hwf hs hat hc hrel hfor hex
-  have hnf := Stmt.noFn_of_simple _ hs
+  intro lo s t t' hwf hs hat hc hrel hfor hsafe hex
+  have hnf := Stmt.noFn_of_simple2 _ hs
   -- the scan
   have hscan : findCommands ifTables is (lo + 1) =
       .ok ⟨elseOffsets.go (lo + 1 + body.flatten.length) elifs kwElse,
@@ -305,7 +335,7 @@ theorem stmt_if (is : List Instruction) (fuel : Nat) (hB : BlockSim is fuel) (hE
     · omega
   rw [flatten_if] at hat
   simp only [flatten_if, List.length_cons, List.length_append, length_tailFlat] at hfor ⊢
-  simp only [Stmt.wf, Stmt.simple, Bool.and_eq_true] at hwf hs
+  simp only [Stmt.wf, Stmt.simple2, Bool.and_eq_true] at hwf hs
   obtain ⟨⟨⟨⟨hkif, hbwf⟩, hewf⟩, hke⟩, hkend⟩ := hwf
   obtain ⟨⟨⟨hcs, hbs⟩, hess⟩, hebs⟩ := hs
   have hi := At.head hat
@@ -318,15 +348,21 @@ theorem stmt_if (is : List Instruction) (fuel : Nat) (hB : BlockSim is fuel) (hE
   cases fuel with
   | zero => simp [execStmt, evalCond] at hex
   | succ f =>
-    simp only [execStmt, evalCond_simple is f cond t hcs hrel.tfns hrel.tsfns] at hex
-    cases hv : condVal (bind t.vars (some cond)) with
-    | error e => rw [hv] at hex; simp at hex
-    | ok bv =>
-      rw [hv] at hex
+    simp only [execStmt] at hex
+    simp only [safeStmt, Bool.and_eq_true] at hsafe
+    obtain ⟨hcsafe, hsafe'⟩ := hsafe
+    cases hec : evalCond is (f + 1) cond t with
+    | none => rw [hec] at hex; simp at hex
+    | some pr =>
+      obtain ⟨bv, t1⟩ := pr
+      rw [hec] at hex hsafe'
+      obtain ⟨em, rfl, hbne, hev⟩ := cond_sim is f cond t t1 bv hcs hcsafe hrel.tfns hrel.tsfns hec
+      have hv : CondSays is (bind t.vars (some cond)) t.vars s.emitted bv em :=
+        ⟨hbne, fun f' hf' s' h1 h2 => hev f' hf' is s' h1 (h2.trans hrel.emitted)⟩
       cases bv with
       | true =>
-        simp only at hex
-        obtain ⟨M, hstep1, hcache1⟩ := step_if_true is lo t.vars s _ kwIf cond _ stop hi hkif hcs
+        simp only at hex hsafe'
+        obtain ⟨M, hstep1, hcache1⟩ := step_if_true is lo t.vars s _ kwIf cond _ stop em hi hkif
           hrel.sfns hc hscan hv
         generalize hown : IfCall.mk (match elseOffsets.go (lo + 1 + body.flatten.length) elifs kwElse with
               | [] => stop | e :: _ => e) true 0 lo stop
@@ -345,12 +381,18 @@ theorem stmt_if (is : List Instruction) (fuel : Nat) (hB : BlockSim is fuel) (hE
         have hop : own.passed = true := by subst hown; rfl
         have hos : own.stop = stop := by subst hown; rfl
         have hoc : own.ctx = s.lineCtx := by subst hown; rfl
+        have hopen : SimCore is lo (stop + 1)
+            (fun x => Stmt.assigns x (.ifChain kwIf cond body elifs kwElse elseBody kwEnd)) s t
+            (withEm t em)
+            { s with ifMeta := M, endTable := s.endTable.put (lineKey s stop) fullNameEndIf,
+                     emitted := em, ifStack := own :: s.ifStack } :=
+          SimCore.opener stop fullNameEndIf (hcache1.of_eq rfl rfl rfl rfl) hrel rfl rfl rfl rfl rfl rfl
+            (by omega) (by omega)
         obtain ⟨s2, hst2, hcore2, hif2, hwh2, hfor2⟩ :=
           hB body (lo + 1)
             { s with ifMeta := M, endTable := s.endTable.put (lineKey s stop) fullNameEndIf,
-                     ifStack := own :: s.ifStack } t t' hbwf hbs hat'.left
-            (hcache1.of_eq rfl rfl rfl rfl) (hrel.of_eq rfl rfl rfl rfl)
-            (hfor.mono (by omega) (by omega)) hex
+                     emitted := em, ifStack := own :: s.ifStack } (withEm t em) t' hbwf hbs hat'.left
+            hopen.cache hopen.rel (hfor.mono (by omega) (by omega)) hsafe' hex
         obtain ⟨G, hG1, hG2⟩ := hif2
         have hend2 : s2.endTable.get (lineKey s2 stop) = some fullNameEndIf := by
           rw [lineKey_congr hcore2.frame.ctx, hcore2.frame.endT stop (.inr (by omega))]
@@ -361,48 +403,55 @@ theorem stmt_if (is : List Instruction) (fuel : Nat) (hB : BlockSim is fuel) (hE
             (fun e he => by have := hG2 e he; omega) hop hos
             (by rw [hoc]; exact (hcore2.frame.ctx).symm) hocur.1 hocur.2 hend2
         refine ⟨s3, (hstep1.trans hst2).trans hst3, ?_, hif3, ?_, ?_⟩
-        · have hopen : SimCore is lo (stop + 1)
-              (fun x => Stmt.assigns x (.ifChain kwIf cond body elifs kwElse elseBody kwEnd)) s t t
-              { s with ifMeta := M, endTable := s.endTable.put (lineKey s stop) fullNameEndIf,
-                       ifStack := own :: s.ifStack } :=
-            SimCore.opener stop fullNameEndIf (hcache1.of_eq rfl rfl rfl rfl) hrel rfl rfl rfl rfl rfl rfl
-              (by omega) (by omega)
-          refine hopen.trans ((hcore2.mono' (by omega) (by omega) ?_).core_right hcore3)
+        · refine hopen.trans ((hcore2.mono' (by omega) (by omega) ?_).core_right hcore3)
           intro x hx
           simp only [Stmt.assigns, Bool.or_eq_false_iff] at hx
           exact hx.1.1
         · rw [hwh3]; exact hwh2.mono (by omega) (by omega)
         · rw [hfor3, hfor2]
       | false =>
-        simp only at hex
+        simp only at hex hsafe'
         cases hg : elseOffsets.go (lo + 1 + body.flatten.length) elifs kwElse with
         | nil =>
           obtain ⟨rfl, rfl⟩ := go_nil_inv _ _ _ hg
-          have := execElifs_nil_none is (f + 1) elseBody t t' hex
+          have := execElifs_nil_none is (f + 1) elseBody _ t' hex
           subst this
           rw [hg] at hscan
-          obtain ⟨M, hstep1, hcache1⟩ := step_if_false_nil is lo t'.vars s _ kwIf cond stop hi hkif hcs
+          obtain ⟨M, hstep1, hcache1⟩ := step_if_false_nil is lo t.vars s _ kwIf cond stop em hi hkif
             hrel.sfns hc hscan hv
           exact ⟨_, hstep1,
-            SimCore.opener stop fullNameEndIf hcache1 hrel rfl rfl rfl rfl rfl rfl (by omega) (by omega),
+            SimCore.opener stop fullNameEndIf (hcache1.of_eq rfl rfl rfl rfl) hrel rfl rfl rfl rfl rfl rfl
+              (by omega) (by omega),
             Garb.refl _ _ _ _, Garb.refl _ _ _ _, rfl⟩
         | cons a tl =>
           have := go_head _ _ _ _ _ hg
           subst this
           rw [hg] at hscan
-          obtain ⟨M, hstep1, hcache1⟩ := step_if_false_cons is lo t.vars s _ kwIf cond _ tl stop hi hkif
-            hcs hrel.sfns hc hscan hv
+          obtain ⟨M, hstep1, hcache1⟩ := step_if_false_cons is lo t.vars s _ kwIf cond _ tl stop em hi hkif
+            hrel.sfns hc hscan hv
+          have hopen : SimCore is lo (stop + 1)
+              (fun x => Stmt.assigns x (.ifChain kwIf cond body elifs kwElse elseBody kwEnd)) s t
+              (withEm t em)
+              { s with ifMeta := M, endTable := s.endTable.put (lineKey s stop) fullNameEndIf,
+                       emitted := em,
+                       ifStack := { current := lo + 1 + body.flatten.length, passed := false, elseIdx := 0,
+                                    start := lo, stop := stop,
+                                    elses := (lo + 1 + body.flatten.length) :: tl,
+                                    ctx := s.lineCtx } :: s.ifStack } :=
+            SimCore.opener stop fullNameEndIf (hcache1.of_eq rfl rfl rfl rfl) hrel rfl rfl rfl rfl rfl rfl
+              (by omega) (by omega)
           obtain ⟨s2, hst2, hcore2, hif2, hwh2, hfor2⟩ :=
             hE elifs kwElse elseBody kwEnd lo (lo + 1 + body.flatten.length) stop
               ((lo + 1 + body.flatten.length) :: tl) 0
               { current := lo + 1 + body.flatten.length, passed := false, elseIdx := 0, start := lo,
                 stop := stop, elses := (lo + 1 + body.flatten.length) :: tl, ctx := s.lineCtx } s.ifStack
               { s with ifMeta := M, endTable := s.endTable.put (lineKey s stop) fullNameEndIf,
+                       emitted := em,
                        ifStack := { current := lo + 1 + body.flatten.length, passed := false, elseIdx := 0,
                                     start := lo, stop := stop,
                                     elses := (lo + 1 + body.flatten.length) :: tl,
                                     ctx := s.lineCtx } :: s.ifStack }
-              t t' hewf hess hke hebs hkend hat'.right (by omega) (by omega)
+              (withEm t em) t' hewf hess hke hebs hkend hat'.right (by omega) (by omega)
               (by rw [List.drop_zero, hg]) (by simp)
               (by
                 intro e he
@@ -410,18 +459,9 @@ theorem stmt_if (is : List Instruction) (fuel : Nat) (hB : BlockSim is fuel) (hE
                 have := go_range elseBody elifs _ kwElse e he
                 omega)
               rfl rfl rfl rfl rfl rfl rfl (KV.get_put_self _ _ _)
-              (hcache1.of_eq rfl rfl rfl rfl) (hrel.of_eq rfl rfl rfl rfl)
-              (hfor.mono (by omega) (by omega)) hex
+              hopen.cache hopen.rel
+              (hfor.mono (by omega) (by omega)) hsafe' hex
           refine ⟨s2, hstep1.trans hst2, ?_, hif2, hwh2.mono (by omega) (by omega), hfor2⟩
-          have hopen : SimCore is lo (stop + 1)
-              (fun x => Stmt.assigns x (.ifChain kwIf cond body elifs kwElse elseBody kwEnd)) s t t
-              { s with ifMeta := M, endTable := s.endTable.put (lineKey s stop) fullNameEndIf,
-                       ifStack := { current := lo + 1 + body.flatten.length, passed := false, elseIdx := 0,
-                                    start := lo, stop := stop,
-                                    elses := (lo + 1 + body.flatten.length) :: tl,
-                                    ctx := s.lineCtx } :: s.ifStack } :=
-            SimCore.opener stop fullNameEndIf (hcache1.of_eq rfl rfl rfl rfl) hrel rfl rfl rfl rfl rfl rfl
-              (by omega) (by omega)
           refine hopen.trans (hcore2.mono' (by omega) (by omega) ?_)
           intro x hx
           simp only [Stmt.assigns, Bool.or_eq_false_iff] at hx
